@@ -283,6 +283,9 @@ func (s *memoryStore) UpdateNodePeers(nodeID store.NodeID, peers []string, block
 	now := time.Now()
 	node.LastSeen = now
 	node.BlockNumber = blockNumber
+	// Save now, so that a node listing itself sees its new LastSeen (as the
+	// badger driver does, which reads its own write).
+	s.nodes[nodeID] = node
 
 	for _, peer := range peers {
 		// Only update peers we already know about
